@@ -68,7 +68,7 @@ type (
 
 	adaptiveShedder struct {
 		cpuThreshold    int64
-		windows         int64
+		windows         float64 // 每秒的桶数，可以不是整数（桶时长不整除 1 秒或大于 1 秒）
 		flying          int64
 		avgFlying       float64
 		avgFlyingLock   syncx.SpinLock
@@ -107,7 +107,7 @@ func NewAdaptiveShedder(opts ...ShedderOption) Shedder {
 	bucketDuration := options.window / time.Duration(options.buckets)
 	return &adaptiveShedder{
 		cpuThreshold:    options.cpuThreshold,
-		windows:         int64(time.Second / bucketDuration),
+		windows:         float64(time.Second) / float64(bucketDuration),
 		overloadTime:    syncx.NewAtomicDuration(),
 		droppedRecently: syncx.NewAtomicBool(),
 		passCounter:     collection.NewRollingWindow(options.buckets, bucketDuration, collection.IgnoreCurrentBucket()),
@@ -205,7 +205,7 @@ func (as *adaptiveShedder) maxFlight() int64 {
 	// maxQPS = maxPASS * windows
 	// minRT = 毫秒单位的最小平均响应时间
 	// maxQPS * minRT / 每秒的毫秒数
-	return int64(math.Max(1, float64(as.maxPass()*as.windows)*(as.minRt()/1e3)))
+	return int64(math.Max(1, float64(as.maxPass())*as.windows*(as.minRt()/1e3)))
 }
 
 func (as *adaptiveShedder) maxPass() int64 {
